@@ -131,6 +131,18 @@ def json_rules(chk, program):
     dumps = [n for n in ast.walk(tj) if isinstance(n, ast.Call) and ast.unparse(n.func) == 'orjson.dumps']
     okd = len(dumps) == 1 and len(hook) == 1 and any(k.arg == 'default' and isinstance(k.value, ast.Name) and k.value.id == hook[0].name for k in dumps[0].keywords)
     chk.check(okd, 'JSON-TYPES', 'to_json::orjson-with-default', file=MSG, line=tj.lineno, func='to_json', expected='orjson.dumps(<object graph>, default=<hook>)', found=[ast.unparse(d)[:80] for d in dumps])
+    # options that narrow what orjson accepts natively would make valid messages unserialisable
+    NARROWING = ('OPT_STRICT_INTEGER', 'OPT_PASSTHROUGH_DATACLASS', 'OPT_PASSTHROUGH_DATETIME', 'OPT_PASSTHROUGH_SUBCLASS')
+    HARMLESS = ('OPT_INDENT_2', 'OPT_SORT_KEYS', 'OPT_NAIVE_UTC', 'OPT_UTC_Z', 'OPT_OMIT_MICROSECONDS', 'OPT_NON_STR_KEYS', 'OPT_SERIALIZE_NUMPY')
+    for d in dumps:
+        opt = [k.value for k in d.keywords if k.arg == 'option'] + (list(d.args[2:3]) if len(d.args) > 2 else [])
+        flags = [n.attr for o in opt for n in ast.walk(o) if isinstance(n, ast.Attribute) and n.attr.startswith('OPT_')]
+        unknown = [f for f in flags if f not in NARROWING and f not in HARMLESS and f != 'OPT_APPEND_NEWLINE']
+        if unknown or (opt and not flags):
+            chk.unknown('JSON-TYPES', 'to_json::options', f"orjson option not classified: {unknown or ast.unparse(opt[0])}", MSG, d.lineno)
+        bad = [f for f in flags if f in NARROWING or f == 'OPT_APPEND_NEWLINE']
+        chk.check(not bad, 'JSON-TYPES', 'to_json::options', file=MSG, line=d.lineno, func='to_json', expected='no option that narrows the accepted values or alters the text',
+                  found=bad or 'none', detail='' if not bad else 'OPT_STRICT_INTEGER rejects integers beyond 53 bits (64-bit NAME of a source identity, 64-bit fields); PASSTHROUGH options route native types to the hook, which raises')
     if hook:
         h = hook[0]
         handled = {}
